@@ -70,7 +70,11 @@ KeyVal(i, c) ==
          [] c = "county_classification"  -> Un(i).cls
   ELSE CASE c = "postal_code"            -> Un(i).fstate
          [] c = "county_fips"            -> IF "county_fips" \in Recover THEN Un(i).idCounty ELSE NA
-         [] c = "district"               -> IF "district" \in Recover THEN Un(i).idDistrict ELSE NA
+         \* the district is the first id component; ids of a non-district unit type start with the county
+         \* (deliberate deviation: requesting "district" for such a unit type groups unexpected units by that component)
+         [] c = "district"               -> IF "district" \in Recover
+                                            THEN (IF sc.districtGut THEN Un(i).idDistrict ELSE Un(i).idCounty)
+                                            ELSE NA
          [] c = "county_classification"  -> NA
 
 GroupKey(i, keys) == [k \in 1..Len(keys) |-> KeyVal(i, keys[k])]
